@@ -229,5 +229,5 @@ def run_shard(ctx: core.Ctx) -> core.ShardResult:
     # no Hypothesis shrinking: one case is already ~100 faulted executions
     # and the violation detail names the node and crash point
     core.run_hypothesis(ctx, res, cases(ctx.tier == 'quick'), check,
-                        ctx.n(4, 120), shrink=False)
+                        ctx.n(4, 120), shrink=False, min_cases=1)
     return res
